@@ -157,6 +157,7 @@ class Store:
     idx: Tuple[Any, ...]
     value: Any  # Aff | View | HAVOC marker
     havoc_id: Optional[int] = None
+    only: Optional[frozenset] = None  # for a loop's havoc: the constant cells the loop may have written (None = anything)
 
 
 @dataclass
@@ -294,6 +295,9 @@ class Interp:
             if s.root != root:
                 continue
             if s.havoc_id is not None and not s.idx:
+                if s.only is not None and idx and all(isinstance(c_, Aff) and c_.is_const() for c_ in idx) \
+                        and all(len(o_) == len(idx) and any(o_[k_] != idx[k_].c and (o_[k_] < 0) == (idx[k_].c < 0) for k_ in range(len(idx))) for o_ in s.only):
+                    continue  # the loop wrote other constant cells only: this cell is what it was before the loop
                 return Aff.atom(("hav", s.havoc_id, root, idx))
             verdict: Optional[bool] = True
             n = min(len(s.idx), len(idx))
@@ -568,14 +572,9 @@ class Interp:
         if isinstance(s, ast.For):
             return self.exec_loop(s, st)
         if isinstance(s, ast.Assert):
-            out = []
-            for st2, taken in self.branch(s.test, st, s):
-                if taken:
-                    out.append(PathResult(st2, "fall"))
-                else:
-                    self.ev(st2, "raise", s, value="AssertionError")
-                    out.append(PathResult(st2, "raise"))
-            return out
+            # an assertion guarantees nothing: it is stripped by `python -O` (and, in compiled code reached through a function pointer, its
+            # failure is discarded).  The statement that follows is analysed without the asserted fact.
+            return [PathResult(st, "fall")]
         if isinstance(s, ast.Try):
             # approximation: the handlers start from the state at the entry of the try block (the statement that
             # raised had no effect); the normal path runs body (+ else); finally blocks are appended to both.
@@ -729,20 +728,71 @@ class Interp:
                 probe = st0.fork()
                 self._havoc_loop(probe, assigned, roots, loop_id)
                 saved_n = self.n
-                self._loop_body(s, probe, itv, loop_id, is_for, None)
+                probe_res = self._loop_body(s, probe, itv, loop_id, is_for, None)
                 new_roots = [r for r in dict.fromkeys(self.stored_roots[mark:]) if r not in roots]
                 del self.stored_roots[mark:]
                 if not new_roots:
                     break
                 roots.extend(new_roots)
             hst = st0.fork()
+            n_before = len(hst.heap)
             self._havoc_loop(hst, assigned, roots, loop_id)
+            try:
+                only_cells = self._const_cells_written(probe_res[0] if probe_res else [], roots)
+                for sto in hst.heap[n_before:]:
+                    if sto.havoc_id is not None and not sto.idx and sto.root in only_cells:
+                        sto.only = only_cells[sto.root]
+            except Exception:
+                pass
             summ = LoopSummary(s, loop_id, "for" if is_for else "while", itv, None, [], self.fq(), tuple(roots),
                                dict(st0.env), tuple(assigned))
             body_res, index, exit_states = self._loop_body(s, hst.fork(), itv, loop_id, is_for, summ)
             summ.index = index
             for r in body_res:
                 summ.paths.append(r)
+            # monotone cells: a cell of an array that the loop only ever changes by `+= positive constant` (resp. `-=`) ends at least (resp.
+            # at most) where it started.  Only when every store of the loop into that array addresses a constant cell (no aliasing).
+            try:
+                by_root: Dict[str, List[Event]] = {}
+                nested_roots: set = set()
+
+                def _collect(evs: List[Event]) -> None:
+                    for e_ in evs:
+                        if e_.kind == "store" and e_.root is not None:
+                            by_root.setdefault(e_.root, []).append(e_)
+                        elif e_.kind in ("loop", "iter") and e_.loop is not None and e_.loop is not summ:
+                            nested_roots.update(e_.loop.stored_roots)
+                for r_ in body_res:
+                    _collect(r_.events)
+                for root_, evs_ in by_root.items():
+                    if root_ in nested_roots or root_ not in roots:
+                        continue
+                    if not all(e_.idx and all(isinstance(c_, Aff) and c_.is_const() for c_ in e_.idx) for e_ in evs_):
+                        continue
+                    cells_: Dict[Tuple[Any, ...], List[Event]] = {}
+                    for e_ in evs_:
+                        cells_.setdefault(tuple(e_.idx), []).append(e_)
+                    for idx_, ces in cells_.items():
+                        dirs = set()
+                        for e_ in ces:
+                            if e_.aug is not None and e_.aug[0] in ("Add", "Sub") and isinstance(e_.aug[1], Aff) and e_.aug[1].is_const() and e_.aug[1].c > 0:
+                                dirs.add("up" if e_.aug[0] == "Add" else "down")
+                            elif isinstance(e_.value, Aff) and isinstance(e_.old, Aff) and (e_.value - e_.old).is_const() and (e_.value - e_.old).c != 0:
+                                dirs.add("up" if (e_.value - e_.old).c > 0 else "down")  # written out: x[k] = x[k] + 1
+                            else:
+                                dirs.add("?")
+                        if len(dirs) != 1 or "?" in dirs:
+                            continue
+                        pre_v = self.load_at(st0, len(st0.heap), root_, idx_)
+                        post_v = self.load_at(hst, len(hst.heap), root_, idx_)
+                        if isinstance(pre_v, Aff) and isinstance(post_v, Aff):
+                            c_ = cmp_cond(">=", post_v, pre_v) if "up" in dirs else cmp_cond("<=", post_v, pre_v)
+                            for ex in exit_states:
+                                ex.facts.add(c_)
+                            for r_ in body_res:
+                                r_.state.facts.add(c_)
+            except AnalysisError:
+                pass
             if self.invariants:
                 inv = self._houdini(summ, st0)
                 summ.invariants = inv
@@ -765,6 +815,31 @@ class Interp:
                     ex = r.state
                     self.ev(ex, "loop", s, loop=summ)
                     out.append(PathResult(ex, "fall"))
+        return out
+
+    def _const_cells_written(self, body_res: List["PathResult"], roots: List[str]) -> Dict[str, frozenset]:
+        """root -> the constant cells an iteration may write, for the roots whose every store in the body addresses a constant cell and
+        that no nested loop and no opaque call can touch."""
+        by_root: Dict[str, List[Event]] = {}
+        dirty: set = set()
+        for r_ in body_res:
+            for e_ in r_.events:
+                if e_.kind == "store" and e_.root is not None:
+                    by_root.setdefault(e_.root, []).append(e_)
+                elif e_.kind in ("loop", "iter") and e_.loop is not None:
+                    dirty.update(e_.loop.stored_roots)
+                elif e_.kind in ("call", "icall", "mcall"):
+                    for a_ in list(e_.args) + ([e_.recv] if e_.recv is not None else []):
+                        v_ = as_view(a_)
+                        if isinstance(v_, View):
+                            dirty.add(v_.root)
+        out: Dict[str, frozenset] = {}
+        for root_ in roots:
+            evs_ = by_root.get(root_, [])
+            if root_ in dirty or not evs_:
+                continue
+            if all(e_.idx and all(isinstance(c_, Aff) and c_.is_const() for c_ in e_.idx) for e_ in evs_):
+                out[root_] = frozenset(tuple(c_.c for c_ in e_.idx) for e_ in evs_)
         return out
 
     def _havoc_loop(self, st: State, assigned: List[str], roots: List[str], loop_id: int) -> None:
